@@ -1,4 +1,5 @@
 import MxV.Model.MsimpleTheory
+import MxV.Props.C14
 /-! # C10 — a failed operation changes nothing
 In the model a raising call returns `Except.error` and the state that continues is the old one
 (`Msimple.apply`); that the *code* behaves like this on `Tame` templates — nothing is touched before
@@ -26,7 +27,32 @@ theorem check_pure (p : Particle) (k : Kids) : (fun _ : List Nat => k) (required
 example : let p : Particle := .seq 1 (some 1) [.elem 0 1 (some 1), .elem 2 1 (some 1)]
     run p [.add 1 0 none, .add 2 0 none, .add 3 7 none, .rm 9, .add 4 2 none] = run p [.add 1 0 none, .add 4 2 none] := by
   decide
+
+/-! ## attribute assignments (model `Element.setAttr`; history semantics `C14.runA`; tied to the code
+by the element engine this check also runs) -/
+section Attr
+open Element Values
+
+/-- attribute side: a refused assignment leaves the store exactly as it was (all tables, stores, keys, values) -/
+theorem attr_failed_changes_nothing (validate : Nat → PyVal → Res) (t : Tbl) (s : Store) (op : String × PyVal)
+    (e : AErr) (h : setAttr validate t s op.1 op.2 = .error e) : C14.stepA validate t s op = s := by
+  simp [C14.stepA, h]
+
+/-- … and the rest of the history proceeds as if the refused assignment had never been attempted -/
+theorem attr_then_supply (validate : Nat → PyVal → Res) (t : Tbl) (s : Store) (a rest : List (String × PyVal))
+    (op : String × PyVal) (e : AErr)
+    (h : setAttr validate t (C14.runA validate t s a) op.1 op.2 = .error e) :
+    C14.runA validate t s (a ++ op :: rest) = C14.runA validate t s (a ++ rest) := by
+  unfold C14.runA at h ⊢
+  rw [List.foldl_append, List.foldl_append, List.foldl_cons, attr_failed_changes_nothing validate t _ op e h]
+
+example : (C14.runA (fun ty _ => if ty == 7 then .ok else .valueError) [("font-size", 7, false), ("color", 3, false)] []
+      [("font_size", .int 1), ("color", .int 2), ("nope", .int 3), ("font-size", .int 4)] ==
+    [("font-size", PyVal.int 4)]) = true := by decide
+end Attr
 end C10
 
 #print axioms C10.C10_tame
 #print axioms C10.C10_then_supply
+#print axioms C10.attr_failed_changes_nothing
+#print axioms C10.attr_then_supply
